@@ -257,7 +257,7 @@ def policy_strategy(kind):
             pc.update(w=st.sampled_from([0, 0, 1, 2, 9]), mn=st.integers(0, 3), mx=st.integers(0, 4), ir=st.integers(0, 4),
                       st=st.integers(0, len(STEP_TABLE) - 1), de=st.integers(0, len(DEC_TABLE) - 1))
         return st.fixed_dictionaries({"pol": st.fixed_dictionaries(pc), "start": st.integers(0, 12).map(lambda k: 4 * k) | st.integers(0, 48),
-                                      "ops": st.lists(step, min_size=1, max_size=120 if big else 60)})
+                                      "ops": st.lists(step, min_size=6, max_size=120 if big else 60)})
     return s
 
 
@@ -459,7 +459,7 @@ def entity_strategy(safe):
             arr = st.lists(st.tuples(st.sampled_from([0, 0, 0, 1, 2, 4, 4, 4, 8, 8, 12, 40]),
                                      st.sampled_from([0, 0, 0, 0, 1, -1, 2]),
                                      st.sampled_from([0] * 40 + [1, 1000, 123456789])).map(list),
-                           min_size=1, max_size=40 if big else 24)
+                           min_size=4, max_size=40 if big else 24)
         return st.fixed_dictionaries({"pol": pc, "qcap": st.integers(0, 5), "arr": arr, "driver": st.booleans(),
                                       "start": st.sampled_from([0, 0, 1, 4, 12])})
     return s
@@ -541,7 +541,7 @@ def inductor_strategy(safe):
             arr = st.lists(st.tuples(st.sampled_from([0, 0, 0, 1, 2, 4, 4, 8, 16]),
                                      st.sampled_from([0, 0, 0, 0, 1, -1, 2]),
                                      st.sampled_from([0] * 40 + [1, 1000, 123456789])).map(list),
-                           min_size=1, max_size=40 if big else 24)
+                           min_size=4, max_size=40 if big else 24)
         return st.fixed_dictionaries({"tau": st.integers(0, len(TAU_TABLE) - 1), "qcap": st.integers(0, 5), "arr": arr,
                                       "driver": st.booleans(), "unit": st.sampled_from([NS // 10, NS // 512 * 4, 1000, NS]),
                                       "gap": st.sampled_from([1, 4, 8, 40])})
@@ -605,7 +605,7 @@ def distributed_strategy(tier):
     big = tier == "thorough"
     arr = st.lists(st.tuples(st.sampled_from([0, 0, 1, 1, 2, 4, 4, 4, 8]), st.sampled_from([0, 0, 0, 1, -1]),
                              st.sampled_from([0] * 40 + [1, 1000000, 20000000]), st.integers(0, 2)).map(list),
-                   min_size=1, max_size=40 if big else 20)
+                   min_size=3, max_size=40 if big else 20)
     return st.fixed_dictionaries({"n": st.sampled_from([1, 1, 2, 3]), "limit": st.sampled_from([1, 1, 2, 3, 5]),
                                   "w": st.integers(0, len(W_TABLE) - 1),
                                   "rl": st.sampled_from([0, 0, 1, 2, 3, 4]), "wl": st.sampled_from([0, 0, 1, 2, 3, 4]),
